@@ -347,5 +347,50 @@ func TestC15(t *testing.T) {
 			r.Fail("vbi", caseC15{Value: &v}, "public-api", "%s", msg)
 			t.Fatalf("%s", msg)
 		}
+		// several identifiers in one PUBLISH (each decoded in turn by the
+		// in-memory decoder), payload padded so that the remaining length and
+		// sometimes the property length sit on a size boundary
+		pm := model.New(model.PUBLISH)
+		pm.TopicName = "t"
+		n := rapid.IntRange(2, 5).Draw(t, "nids")
+		for i := 0; i < n; i++ {
+			id := rapid.Uint32Range(1, maxV-1).Draw(t, "id")
+			if rapid.Bool().Draw(t, "idb") {
+				id = rapid.SampledFrom([]uint32{1, 127, 128, 16383, 16384, 2097151, 2097152, maxV - 1}).Draw(t, "idv")
+			}
+			pm.SubIDs = append(pm.SubIDs, id)
+		}
+		if rapid.Bool().Draw(t, "pad") {
+			padToRemainingLength(&pm, rapid.SampledFrom(rlTargets).Draw(t, "rl"))
+		}
+		if rapid.IntRange(0, 3).Draw(t, "bigprops") == 0 {
+			// property length on a boundary: one user property pads the section
+			base := len(ref.Canonical(&pm))
+			target := rapid.SampledFrom([]int{127, 128, 16383, 16384}).Draw(t, "proplen")
+			pad := target - (base - 7) - 5
+			if pad > 0 && pad < 65535 {
+				pm.UserProps = []model.KV{{K: "k", V: string(bytes.Repeat([]byte{'p'}, pad))}}
+			}
+		}
+		pm.Normalize()
+		pf, _, err, pan := write(api.BuildDefault(&pm))
+		pwant := ref.Canonical(&pm)
+		r.Case(vf.FPs("subids", fmt.Sprint(pm.SubIDs), fmt.Sprint(len(pm.Payload))), true, "public-api/publish-subscription-identifiers", func() interface{} {
+			return map[string]interface{}{"subscription_identifiers": pm.SubIDs, "frame": hx(pf)}
+		})
+		if pan != nil || err != nil || !bytes.Equal(pf, pwant) {
+			msg := fmt.Sprintf("PUBLISH with subscription identifiers %v written as %s, reference %s (%v %v)", pm.SubIDs, hx(pf), hx(pwant), err, pan)
+			r.Fail("vbi", caseC15{Seq: pf}, "public-api", "%s", msg)
+			t.Fatalf("%s", msg)
+		}
+		pq, err, pan := read(pwant)
+		if pan != nil || err != nil || fmt.Sprint(pq.(*mq.Publish).SubscriptionIDs()) != fmt.Sprint(pm.SubIDs) {
+			msg := fmt.Sprintf("PUBLISH subscription identifiers %v read back as %v (%v %v), frame %s", pm.SubIDs, pq, err, pan, hx(pwant))
+			if pp, ok := pq.(*mq.Publish); ok {
+				msg = fmt.Sprintf("PUBLISH subscription identifiers %v read back as %v, frame %s", pm.SubIDs, pp.SubscriptionIDs(), hx(pwant))
+			}
+			r.Fail("vbi", caseC15{Seq: pwant}, "public-api", "%s", msg)
+			t.Fatalf("%s", msg)
+		}
 	})
 }
